@@ -1,11 +1,13 @@
-(* C17 proofs: `accepts a = true -> representable a` per encoder.
-   For the UNFIXED /repo the statement is refuted for every package-level encoder; each
-   `<enc>_accepts_refuted` gives a vm_compute witness (replayed on the Go code by the C17
-   suite), each `<enc>_accepts_partial` proves the statement under exactly the guards that are
-   missing (so the partial theorem's extra hypotheses ARE the suggested fix). At the registry
-   level width/height are uint16, which supplies the missing dimension guard: the
-   `codec_*_sound` theorems are unconditional for baseline, extended, lossless (.57), SV1 and
-   the JPEG 2000 / HTJ2K codecs; JPEG-LS and RLE stay refuted there too. *)
+(* C17 proofs: `accepts a = true -> representable a` per encoder, for the guards of /repo AFTER
+   the fix commits (see FrmValidate.v). The statement now holds unconditionally for baseline,
+   extended, lossless, SV1, JPEG-LS lossless, RLE and (for images below 2^59 pixels with
+   32-bit dimensions) jpeg2000.Encoder, and for every registry codec except .81.
+   Still refuted, recorded as known findings: JPEG-LS near-lossless accepts NEAR above
+   MAXVAL/2 (FR-3: `jlsnear_accepts_refuted`, `codec_jlsnear_refuted`; the `_partial` theorems
+   name the missing guard); Validate() normalises instead of rejecting (FR-7:
+   `norm_param_in_range`). Outside the property's quantifier but true of the code:
+   jpeg2000.Encoder has no upper bound on Width/Height, the int64 byte count wraps at 2^32 x
+   2^32 (`j2k_accepts_beyond_uint32_refuted`; the call panics on the implementation). *)
 From V Require Import Common.Base Framing.FrmValidate.
 
 (* ---------- tactics ---------- *)
@@ -69,51 +71,22 @@ Proof.
   split; reflexivity.
 Qed.
 
-(* ================= baseline ================= *)
+(* ================= baseline / extended / lossless / SV1 ================= *)
 
-Definition baseline_accepts_statement : Prop :=
-  forall a, 0 <= a_len a -> baseline_accepts a = true -> baseline_representable a = true.
-
-(* missing guard: width <= 65535 && height <= 65535 *)
-Theorem baseline_accepts_refuted :
-  exists a, 0 <= a_len a /\ baseline_accepts a = true /\ baseline_representable a = false.
-Proof.
-  exists {| a_len := 65536; a_w := 65536; a_h := 1; a_c := 1; a_p := 8; a_x := 75 |}.
-  vm_compute. repeat split; discriminate.
-Qed.
-
-Theorem baseline_accepts_partial : forall a,
-  a_w a <= 65535 -> a_h a <= 65535 ->
+Theorem baseline_accepts_sound : forall a,
   baseline_accepts a = true -> baseline_representable a = true.
 Proof.
-  intros a Hw Hh H. unfold baseline_accepts in H. split_and H. bool_hyps.
+  intros a H. unfold baseline_accepts in H. split_and H. bool_hyps.
   all: assert (Hc : a_c a = 1 \/ a_c a = 3) by lia.
   all: destruct (need_exact (a_w a) (a_h a) (a_c a) 1 ltac:(lia) ltac:(lia) ltac:(lia) ltac:(lia)) as [_ E].
   all: rewrite E in *.
   all: unfold baseline_representable, dims16_ok, need_bytes. all: bool_goal; try lia.
 Qed.
 
-(* ================= extended ================= *)
-
-Definition extended_accepts_statement : Prop :=
-  forall a, 0 <= a_len a -> extended_accepts a = true -> extended_representable a = true.
-
-Theorem extended_accepts_refuted :
-  (exists a, 0 <= a_len a /\ a_p a = 8 /\ extended_accepts a = true /\ extended_representable a = false) /\
-  (exists a, 0 <= a_len a /\ a_p a = 12 /\ extended_accepts a = true /\ extended_representable a = false).
-Proof.
-  split.
-  - exists {| a_len := 65537; a_w := 1; a_h := 65537; a_c := 1; a_p := 8; a_x := 75 |}.
-    vm_compute. repeat split; discriminate.
-  - exists {| a_len := 131072; a_w := 65536; a_h := 1; a_c := 1; a_p := 12; a_x := 75 |}.
-    vm_compute. repeat split; discriminate.
-Qed.
-
-Theorem extended_accepts_partial : forall a,
-  a_w a <= 65535 -> a_h a <= 65535 ->
+Theorem extended_accepts_sound : forall a,
   extended_accepts a = true -> extended_representable a = true.
 Proof.
-  intros a Hw Hh H. unfold extended_accepts in H.
+  intros a H. unfold extended_accepts in H.
   destruct (Z.eqb_spec (a_p a) 12) as [E12|N12].
   - unfold seq12_accepts in H. split_and H. bool_hyps.
     all: destruct (need_exact (a_w a) (a_h a) 2 1 ltac:(lia) ltac:(lia) ltac:(lia) ltac:(lia)) as [_ E].
@@ -130,23 +103,10 @@ Proof.
     all: bool_goal; try lia.
 Qed.
 
-(* ================= lossless / SV1 ================= *)
-
-Definition lossless_accepts_statement : Prop :=
-  forall a, 0 <= a_len a -> lossless_accepts a = true -> lossless_representable a = true.
-
-Theorem lossless_accepts_refuted :
-  exists a, 0 <= a_len a /\ lossless_accepts a = true /\ lossless_representable a = false.
-Proof.
-  exists {| a_len := 65537; a_w := 65537; a_h := 1; a_c := 1; a_p := 8; a_x := 1 |}.
-  vm_compute. repeat split; discriminate.
-Qed.
-
-Theorem lossless_accepts_partial : forall a,
-  a_w a <= 65535 -> a_h a <= 65535 ->
+Theorem lossless_accepts_sound : forall a,
   lossless_accepts a = true -> lossless_representable a = true.
 Proof.
-  intros a Hw Hh H. unfold lossless_accepts in H. split_and H. bool_hyps.
+  intros a H. unfold lossless_accepts in H. split_and H. bool_hyps.
   all: assert (Hc : a_c a = 1 \/ a_c a = 3) by lia.
   all: pose proof (bps_bound (a_p a) ltac:(lia)) as Hb.
   all: destruct (need_exact (a_w a) (a_h a) (a_c a) (bytes_per_sample (a_p a))
@@ -155,21 +115,10 @@ Proof.
   all: unfold lossless_representable, dims16_ok, need_bytes. all: bool_goal; try lia.
 Qed.
 
-Definition sv1_accepts_statement : Prop :=
-  forall a, 0 <= a_len a -> sv1_accepts a = true -> sv1_representable a = true.
-
-Theorem sv1_accepts_refuted :
-  exists a, 0 <= a_len a /\ sv1_accepts a = true /\ sv1_representable a = false.
-Proof.
-  exists {| a_len := 131072; a_w := 1; a_h := 65536; a_c := 1; a_p := 16; a_x := 0 |}.
-  vm_compute. repeat split; discriminate.
-Qed.
-
-Theorem sv1_accepts_partial : forall a,
-  a_w a <= 65535 -> a_h a <= 65535 ->
+Theorem sv1_accepts_sound : forall a,
   sv1_accepts a = true -> sv1_representable a = true.
 Proof.
-  intros a Hw Hh H. unfold sv1_accepts in H. split_and H. bool_hyps.
+  intros a H. unfold sv1_accepts in H. split_and H. bool_hyps.
   all: assert (Hc : a_c a = 1 \/ a_c a = 3) by lia.
   all: pose proof (bps_bound (a_p a) ltac:(lia)) as Hb.
   all: destruct (need_exact (a_w a) (a_h a) (a_c a) (bytes_per_sample (a_p a))
@@ -180,127 +129,113 @@ Qed.
 
 (* ================= JPEG-LS ================= *)
 
-Definition jls_accepts_statement : Prop :=
-  forall a, 0 <= a_len a -> jls_accepts a = true -> jls_representable a = true.
-
-(* two missing guards: the pixel buffer length, and the 65535 bound *)
-Theorem jls_accepts_refuted :
-  (exists a, 0 <= a_len a /\ jls_accepts a = true /\ dims16_ok a = true /\ jls_representable a = false) /\
-  (exists a, 0 <= a_len a /\ jls_accepts a = true /\ need_bytes a 1 <= a_len a /\ jls_representable a = false).
-Proof.
-  split.
-  - exists {| a_len := 0; a_w := 1; a_h := 1; a_c := 1; a_p := 8; a_x := 0 |}.
-    vm_compute. repeat split; discriminate.
-  - exists {| a_len := 65536; a_w := 65536; a_h := 1; a_c := 1; a_p := 8; a_x := 0 |}.
-    vm_compute. repeat split; discriminate.
-Qed.
-
-Theorem jls_accepts_partial : forall a,
-  a_w a <= 65535 -> a_h a <= 65535 ->
-  need_bytes a (bytes_per_sample (a_p a)) <= a_len a ->
+Theorem jls_accepts_sound : forall a,
   jls_accepts a = true -> jls_representable a = true.
 Proof.
-  intros a Hw Hh Hn H. unfold jls_accepts in H. split_and H. bool_hyps.
-  all: unfold jls_representable, dims16_ok. all: bool_goal; try lia.
+  intros a H. unfold jls_accepts in H. split_and H. bool_hyps.
+  all: assert (Hc : a_c a = 1 \/ a_c a = 3) by lia.
+  all: pose proof (bps_bound (a_p a) ltac:(lia)) as Hb.
+  all: destruct (need_exact (a_w a) (a_h a) (a_c a) (bytes_per_sample (a_p a))
+              ltac:(lia) ltac:(lia) ltac:(lia) ltac:(lia)) as [E _].
+  all: rewrite E in *.
+  all: unfold jls_representable, dims16_ok, need_bytes. all: bool_goal; try lia.
 Qed.
 
 Definition jlsnear_accepts_statement : Prop :=
-  forall a, 0 <= a_len a -> jlsnear_accepts a = true -> jlsnear_representable a = true.
+  forall a, jlsnear_accepts a = true -> jlsnear_representable a = true.
 
-(* three missing guards: buffer length, 65535 bound, NEAR <= min(255, MAXVAL/2) *)
+(* KNOWN FINDING FR-3. The one guard still missing: NEAR <= min(255, MAXVAL/2) (T.87 C.2.3);
+   the encoder only tests 0 <= near <= 255. Dimensions and buffer are fine in the witness. *)
 Theorem jlsnear_accepts_refuted :
-  (exists a, 0 <= a_len a /\ jlsnear_accepts a = true /\ jlsnear_representable a = false /\
-             dims16_ok a = true /\ a_x a <= near_max (a_p a)) /\
-  (exists a, 0 <= a_len a /\ jlsnear_accepts a = true /\ jlsnear_representable a = false /\
-             need_bytes a 1 <= a_len a /\ a_x a <= near_max (a_p a)) /\
-  (exists a, 0 <= a_len a /\ jlsnear_accepts a = true /\ jlsnear_representable a = false /\
-             dims16_ok a = true /\ need_bytes a 1 <= a_len a).
+  exists a, jlsnear_accepts a = true /\ jlsnear_representable a = false /\
+            jls_representable a = true /\ near_max (a_p a) < a_x a <= 255.
 Proof.
-  split; [|split].
-  - exists {| a_len := 0; a_w := 1; a_h := 1; a_c := 1; a_p := 8; a_x := 2 |}.
-    vm_compute. repeat split; discriminate.
-  - exists {| a_len := 65536; a_w := 1; a_h := 65536; a_c := 1; a_p := 8; a_x := 2 |}.
-    vm_compute. repeat split; discriminate.
-  - exists {| a_len := 6; a_w := 3; a_h := 2; a_c := 1; a_p := 2; a_x := 2 |}.
-    vm_compute. repeat split; discriminate.
+  exists {| a_len := 6; a_w := 3; a_h := 2; a_c := 1; a_p := 2; a_x := 2 |}.
+  vm_compute. repeat split; discriminate.
 Qed.
 
 Theorem jlsnear_accepts_partial : forall a,
-  a_w a <= 65535 -> a_h a <= 65535 ->
-  need_bytes a (bytes_per_sample (a_p a)) <= a_len a ->
   a_x a <= near_max (a_p a) ->
   jlsnear_accepts a = true -> jlsnear_representable a = true.
 Proof.
-  intros a Hw Hh Hn Hx H. unfold jlsnear_accepts in H. split_and H. bool_hyps.
-  all: unfold jlsnear_representable, jls_representable, dims16_ok. all: bool_goal; try lia.
+  intros a Hx H.
+  assert (Hj : jls_accepts a = true).
+  { unfold jlsnear_accepts in H. unfold jls_accepts. split_and H.
+    repeat (apply andb_true_intro; split); assumption. }
+  apply jls_accepts_sound in Hj. unfold jlsnear_representable. rewrite Hj.
+  unfold jlsnear_accepts in H. split_and H. bool_hyps.
+  all: bool_goal; try lia.
 Qed.
 
 (* ================= JPEG 2000 ================= *)
 
-Definition j2k_accepts_statement : Prop :=
-  forall k, 0 <= k_len k -> j2k_accepts k = true -> j2k_representable k = true.
-
-Definition j2k_base (len : Z) : j2kargs :=
-  {| k_len := len; k_w := 5; k_h := 4; k_c := 1; k_p := 8; k_levels := 2; k_cbw := 64; k_cbh := 64;
-     k_layers := 1; k_prog := 0; k_tw := 0; k_th := 0; k_quality := 80; k_lossless := true |}.
-
-(* one witness per guard validateParams does not have *)
-Theorem j2k_accepts_refuted :
-  (* code-block area > 4096 (xcb + ycb > 12) *)
-  (exists k, j2k_accepts k = true /\ j2k_representable k = false /\ k_cbw k = 1024 /\ k_cbh k = 1024) /\
-  (* progression order > 4 *)
-  (exists k, j2k_accepts k = true /\ j2k_representable k = false /\ k_prog k = 5) /\
-  (* more than 65535 layers *)
-  (exists k, j2k_accepts k = true /\ j2k_representable k = false /\ k_layers k = 65536) /\
-  (* irreversible with quality outside 1..100 *)
-  (exists k, j2k_accepts k = true /\ j2k_representable k = false /\ k_lossless k = false /\ k_quality k = 0) /\
-  (* negative tile size *)
-  (exists k, j2k_accepts k = true /\ j2k_representable k = false /\ k_tw k = -1) /\
-  (* more than 65535 tiles *)
-  (exists k, j2k_accepts k = true /\ j2k_representable k = false /\ k_tw k = 1 /\ k_th k = 1).
-Proof.
-  repeat split.
-  - exists {| k_len := 20; k_w := 5; k_h := 4; k_c := 1; k_p := 8; k_levels := 2; k_cbw := 1024; k_cbh := 1024;
-              k_layers := 1; k_prog := 0; k_tw := 0; k_th := 0; k_quality := 80; k_lossless := true |}.
-    vm_compute. repeat split; reflexivity.
-  - exists {| k_len := 20; k_w := 5; k_h := 4; k_c := 1; k_p := 8; k_levels := 2; k_cbw := 64; k_cbh := 64;
-              k_layers := 1; k_prog := 5; k_tw := 0; k_th := 0; k_quality := 80; k_lossless := true |}.
-    vm_compute. repeat split; reflexivity.
-  - exists {| k_len := 4; k_w := 2; k_h := 2; k_c := 1; k_p := 8; k_levels := 2; k_cbw := 64; k_cbh := 64;
-              k_layers := 65536; k_prog := 0; k_tw := 0; k_th := 0; k_quality := 80; k_lossless := true |}.
-    vm_compute. repeat split; reflexivity.
-  - exists {| k_len := 20; k_w := 5; k_h := 4; k_c := 1; k_p := 8; k_levels := 2; k_cbw := 64; k_cbh := 64;
-              k_layers := 1; k_prog := 0; k_tw := 0; k_th := 0; k_quality := 0; k_lossless := false |}.
-    vm_compute. repeat split; reflexivity.
-  - exists {| k_len := 20; k_w := 5; k_h := 4; k_c := 1; k_p := 8; k_levels := 2; k_cbw := 64; k_cbh := 64;
-              k_layers := 1; k_prog := 0; k_tw := -1; k_th := 2; k_quality := 80; k_lossless := true |}.
-    vm_compute. repeat split; reflexivity.
-  - exists {| k_len := 65792; k_w := 257; k_h := 256; k_c := 1; k_p := 8; k_levels := 0; k_cbw := 64; k_cbh := 64;
-              k_layers := 1; k_prog := 0; k_tw := 1; k_th := 1; k_quality := 80; k_lossless := true |}.
-    vm_compute. repeat split; reflexivity.
-Qed.
-
 Lemma neg_or3 : forall a b c, negb (a || b || negb c) = true -> a = false /\ b = false /\ c = true.
 Proof. intros [] [] []; cbn; intros H; try discriminate H; repeat split. Qed.
 
-(* with the missing guards as hypotheses (and a pixel count that an int64 byte count can
-   hold) validateParams + convertPixelData do imply representability *)
-Theorem j2k_accepts_partial : forall k,
-  k_w k < 4294967296 -> k_h k < 4294967296 -> k_w k * k_h k < 2 ^ 59 ->
-  k_cbw k * k_cbh k <= 4096 -> k_layers k <= 65535 -> 0 <= k_prog k <= 4 ->
-  0 <= k_tw k < 4294967296 -> 0 <= k_th k < 4294967296 ->
-  tiles_along (k_w k) (k_tw k) * tiles_along (k_h k) (k_th k) <= 65535 ->
-  (k_lossless k = true \/ 1 <= k_quality k <= 100) ->
+Lemma tiles_le : forall w t, 1 <= w -> 1 <= t -> 1 <= Z.quot (w + t - 1) t <= w.
+Proof.
+  intros w t Hw Ht. rewrite Z.quot_div_nonneg by lia. split.
+  - apply Z.div_le_lower_bound; lia.
+  - assert (Hm : w * 1 <= w * t) by (apply Z.mul_le_mono_nonneg_l; lia).
+    assert ((w + t - 1) / t < w + 1).
+    { apply Z.div_lt_upper_bound; [lia|]. replace (t * (w + 1)) with (w * t + t) by ring. lia. }
+    lia.
+Qed.
+
+Lemma go_tiles_eq : forall w t, 1 <= w < 4294967296 -> 0 <= t < 4294967296 ->
+  go_tiles w t = tiles_along w t /\ 1 <= tiles_along w t <= w.
+Proof.
+  intros w t Hw Ht. unfold go_tiles, tiles_along.
+  destruct (Z.eqb_spec t 0) as [->|Hn].
+  - rewrite (wrapS64_id (w + w)) by (change (2 ^ 63) with 9223372036854775808; lia).
+    rewrite (wrapS64_id (w + w - 1)) by (change (2 ^ 63) with 9223372036854775808; lia).
+    pose proof (tiles_le w w ltac:(lia) ltac:(lia)) as Hq.
+    assert (Z.quot (w + w - 1) w = 1).
+    { rewrite Z.quot_div_nonneg by lia. symmetry. apply Z.div_unique with (r := w - 1); lia. }
+    lia.
+  - rewrite (wrapS64_id (w + t)) by (change (2 ^ 63) with 9223372036854775808; lia).
+    rewrite (wrapS64_id (w + t - 1)) by (change (2 ^ 63) with 9223372036854775808; lia).
+    pose proof (tiles_le w t ltac:(lia) ltac:(lia)). lia.
+Qed.
+
+(* validateParams + convertPixelData imply representability. The size hypotheses are not
+   guards of the property: they say "image and tile dimensions that fit the 32-bit SIZ fields,
+   fewer than 2^59 pixels" (beyond that the int64 byte count can wrap, see below); k_ncq is a slice
+   length and k_prog a uint8. *)
+Theorem j2k_accepts_sound : forall k,
+  k_w k < 4294967296 -> k_h k < 4294967296 -> k_tw k < 4294967296 -> k_th k < 4294967296 ->
+  k_w k * k_h k < 2 ^ 59 -> 0 <= k_ncq k -> 0 <= k_prog k ->
   j2k_accepts k = true -> j2k_representable k = true.
 Proof.
-  intros k Hw Hh Hwh Hcb Hly Hpg Htw Hth Hti Hq H.
+  intros k Hw Hh Htw Hth Hwh Hncq Hprog H.
   unfold j2k_accepts in H. split_and H.
   repeat match goal with
   | Hx : negb (_ || _ || negb _) = true |- _ => apply neg_or3 in Hx; destruct Hx as [? [? ?]]
   end.
   assert (Ecw : pow2_4_1024 (k_cbw k) = true) by assumption.
   assert (Ech : pow2_4_1024 (k_cbh k) = true) by assumption.
-  bool_hyps.
+  assert (Hqb : k_lossless k || (0 <? k_ncq k) || ((1 <=? k_quality k) && (k_quality k <=? 100)) = true).
+  { match goal with Hq : negb (negb (k_lossless k) && _ && _) = true |- _ => revert Hq end.
+    destruct (k_lossless k); [reflexivity|]. cbn [negb andb orb].
+    destruct (Z.eqb_spec (k_ncq k) 0) as [E0|N0]; cbn [negb andb orb].
+    - intros Hq. destruct (Z.ltb_spec 0 (k_ncq k)); [lia|]. cbn [orb].
+      destruct (Z.ltb_spec (k_quality k) 1); destruct (Z.ltb_spec 100 (k_quality k));
+        cbn in Hq; try discriminate Hq.
+      apply andb_true_intro; split; apply Z.leb_le; lia.
+    - intros _. destruct (Z.ltb_spec 0 (k_ncq k)); [reflexivity | lia]. }
+  match goal with Hq : negb (negb (k_lossless k) && _ && _) = true |- _ => clear Hq end.
+  (* code-block sizes are among 4..1024, so their int64 product is exact *)
+  assert (Hcbw : 4 <= k_cbw k <= 1024).
+  { unfold pow2_4_1024 in Ecw. repeat (apply Bool.orb_true_iff in Ecw; destruct Ecw as [Ecw|Ecw]);
+      apply Z.eqb_eq in Ecw; lia. }
+  assert (Hcbh : 4 <= k_cbh k <= 1024).
+  { unfold pow2_4_1024 in Ech. repeat (apply Bool.orb_true_iff in Ech; destruct Ech as [Ech|Ech]);
+      apply Z.eqb_eq in Ech; lia. }
+  rewrite (i64mul_exact (k_cbw k) (k_cbh k)) in * by (change (2 ^ 63) with 9223372036854775808; nia).
+  (* the tile-count guard, kept aside while the linear guards are destructed *)
+  match goal with Ht : (if (0 <? k_tw k) || (0 <? k_th k) then _ else true) = true |- _ =>
+    rename Ht into Htiles end.
+  revert Htiles Hqb. bool_hyps. intros Htiles Hqb.
   pose proof (bps_bound (k_p k) ltac:(lia)) as Hb.
   change (2 ^ 59) with 576460752303423488 in Hwh.
   assert (P1 : 0 <= k_w k * k_h k) by nia.
@@ -309,47 +244,114 @@ Proof.
   rewrite (i64mul_exact (k_w k) (k_h k)) in * by (change (2 ^ 63) with 9223372036854775808; lia).
   rewrite (i64mul_exact (k_w k * k_h k) (k_c k)) in * by (change (2 ^ 63) with 9223372036854775808; lia).
   rewrite (i64mul_exact (k_w k * k_h k * k_c k) _) in * by (change (2 ^ 63) with 9223372036854775808; lia).
-  unfold j2k_representable. rewrite Ecw, Ech.
-  assert (Hqb : k_lossless k || ((1 <=? k_quality k) && (k_quality k <=? 100)) = true).
-  { destruct Hq as [-> | Hq]; [reflexivity|].
-    apply Bool.orb_true_iff; right. apply andb_true_intro; split; apply Z.leb_le; lia. }
-  rewrite Hqb.
+  destruct (go_tiles_eq (k_w k) (k_tw k) ltac:(lia) ltac:(lia)) as [Gx Bx].
+  destruct (go_tiles_eq (k_h k) (k_th k) ltac:(lia) ltac:(lia)) as [Gy By].
+  assert (Hti : tiles_along (k_w k) (k_tw k) * tiles_along (k_h k) (k_th k) <= 65535).
+  { destruct ((0 <? k_tw k) || (0 <? k_th k)) eqn:Et.
+    - rewrite Gx, Gy in Htiles.
+      rewrite i64mul_exact in Htiles by (change (2 ^ 63) with 9223372036854775808; nia).
+      destruct (Z.ltb_spec 65535 (tiles_along (k_w k) (k_tw k) * tiles_along (k_h k) (k_th k)));
+        [discriminate Htiles | lia].
+    - apply Bool.orb_false_iff in Et. destruct Et as [E1 E2].
+      apply Z.ltb_ge in E1. apply Z.ltb_ge in E2.
+      assert (k_tw k = 0) by lia. assert (k_th k = 0) by lia.
+      unfold tiles_along. replace (k_tw k) with 0 by lia. replace (k_th k) with 0 by lia. cbn. lia. }
+  unfold j2k_representable. rewrite Ecw, Ech, Hqb.
   repeat (apply andb_true_intro; split); try reflexivity;
     try (apply Z.leb_le; lia); try (apply Z.ltb_lt; lia).
 Qed.
 
-(* ================= RLE ================= *)
-
-Definition rle_accepts_statement : Prop :=
-  forall r, 0 <= r_w r <= 65535 -> 0 <= r_h r <= 65535 -> 0 <= r_ba r <= 65535 -> 0 <= r_spp r <= 65535 ->
-    0 <= r_len r -> rle_accepts r = true -> rle_representable r = true.
-
-(* a zero-sized image is encoded to a header-only stream; BitsAllocated 0 counts as 8192
-   bytes per sample; and (not an acceptance but a crash) more than 15 segments panic *)
-Theorem rle_accepts_refuted :
-  exists r, 0 <= r_len r /\ rle_accepts r = true /\ rle_representable r = false /\ r_h r = 0.
+(* No upper bound on Width/Height: 2^32 x 2^32 with an empty buffer passes every guard (the
+   int64 pixel count wraps to 0) although SIZ cannot hold the size. On the implementation the
+   call panics (slice bounds out of range). Outside the property's quantifier (its dimension
+   values stop at 2^16+1); reported to the integrator as a remaining observation. *)
+Theorem j2k_accepts_beyond_uint32_refuted :
+  exists k, 0 <= k_len k /\ j2k_accepts k = true /\ j2k_representable k = false /\ k_w k = 2 ^ 32.
 Proof.
-  exists {| r_len := 1; r_w := 1; r_h := 0; r_ba := 16; r_spp := 1; r_planar := 0 |}.
-  vm_compute. repeat split; discriminate.
+  exists {| k_len := 0; k_w := 4294967296; k_h := 4294967296; k_c := 1; k_p := 8; k_levels := 0;
+            k_cbw := 64; k_cbh := 64; k_layers := 1; k_prog := 0; k_tw := 0; k_th := 0;
+            k_quality := 80; k_lossless := true; k_ncq := 0 |}.
+  vm_compute. repeat split; discriminate || reflexivity.
 Qed.
 
-Theorem rle_panics :
-  rle_outcome {| r_len := 360; r_w := 5; r_h := 3; r_ba := 64; r_spp := 3; r_planar := 0 |} = Panic /\
-  rle_outcome {| r_len := 122880; r_w := 5; r_h := 3; r_ba := 0; r_spp := 1; r_planar := 0 |} = Panic.
-Proof. split; vm_compute; reflexivity. Qed.
+(* ================= RLE ================= *)
 
-(* bounded: for every geometry of at least one pixel in the finite box below, acceptance does
-   imply representability (the whole domain is enumerated by vm_compute) *)
-Definition zrange (lo n : nat) : list Z := map Z.of_nat (seq lo n).
-Definition rle_box_ok : bool :=
-  forallb (fun w => forallb (fun h => forallb (fun ba => forallb (fun spp => forallb (fun pl =>
-    forallb (fun len =>
-      let r := {| r_len := len; r_w := w; r_h := h; r_ba := ba; r_spp := spp; r_planar := pl |} in
-      negb (rle_accepts r) || rle_representable r)
-    (zrange 0 82)) (zrange 0 2)) (zrange 1 4)) (zrange 1 40)) (zrange 1 2)) (zrange 1 2).
+Lemma rle_bytes_allocated_eq : forall ba, 1 <= ba <= 65535 ->
+  rle_bytes_allocated ba = Z.quot (ba + 7) 8 /\ 1 <= rle_bytes_allocated ba <= 8192.
+Proof.
+  intros ba Hb. unfold rle_bytes_allocated, wrapU. change (2 ^ 16) with 65536.
+  rewrite (Z.mod_small (ba - 1)) by lia.
+  assert (H0 : 0 <= (ba - 1) / 8 < 8192) by (split; [apply Z.div_pos; lia | apply Z.div_lt_upper_bound; lia]).
+  rewrite Z.mod_small by lia. rewrite Z.quot_div_nonneg by lia.
+  replace (ba + 7) with (ba - 1 + 1 * 8) by ring. rewrite Z.div_add by lia. lia.
+Qed.
 
-Theorem rle_accepts_bounded : rle_box_ok = true.
-Proof. vm_compute. reflexivity. Qed.
+(* the segment loop never panics when there are at most 15 segments *)
+Lemma rle_segments_no_panic : forall fuel s nseg b pc len pl,
+  nseg <= 15 -> rle_segments fuel s nseg b pc len pl <> Panic.
+Proof.
+  induction fuel as [|f IH]; intros s nseg b pc len pl Hn; cbn [rle_segments]; [discriminate|].
+  destruct (Z.leb_spec nseg s); [discriminate|].
+  destruct (Z.leb_spec 15 s); [lia|].
+  match goal with |- context [if ?c then Err else _] => destruct c end; [discriminate|].
+  apply IH; exact Hn.
+Qed.
+
+(* when the loop ends Ok, no visited segment had a read position beyond the buffer *)
+Lemma rle_segments_ok_inv : forall fuel s nseg b pc len pl,
+  rle_segments fuel s nseg b pc len pl = Ok tt ->
+  forall s', s <= s' < nseg ->
+    (0 <? pc) && (len <=? (if pl =? 0 then Z.quot s' b * b else Z.quot s' b * b * pc)
+                          + b - Z.rem s' b - 1 + (pc - 1) * (if pl =? 0 then nseg else b)) = false.
+Proof.
+  induction fuel as [|f IH]; intros s nseg b pc len pl H s' Hs; cbn [rle_segments] in H; [discriminate|].
+  destruct (Z.leb_spec nseg s); [lia|].
+  destruct (Z.leb_spec 15 s); [discriminate|].
+  match type of H with (if ?c then Err else _) = _ => destruct c eqn:Ec end; [discriminate|].
+  destruct (Z.eq_dec s' s) as [->|Hne].
+  - exact Ec.
+  - apply (IH _ _ _ _ _ _ H). lia.
+Qed.
+
+Theorem rle_never_panics : forall r, rle_outcome r <> Panic.
+Proof.
+  intros r. unfold rle_outcome.
+  destruct (r_len r =? 0); [discriminate|].
+  destruct ((r_w r =? 0) || (r_h r =? 0)); [discriminate|].
+  destruct (r_ba r =? 0); [discriminate|].
+  destruct (Z.ltb_spec (rle_bytes_allocated (r_ba r) * r_spp r) 1); [discriminate|].
+  destruct (Z.ltb_spec 15 (rle_bytes_allocated (r_ba r) * r_spp r)); cbn [orb]; [discriminate|].
+  apply rle_segments_no_panic. lia.
+Qed.
+
+(* encodeFrame accepts only frames Annex G can represent, for every FrameInfo (uint16 fields) *)
+Theorem rle_accepts_sound : forall r,
+  0 <= r_w r <= 65535 -> 0 <= r_h r <= 65535 -> 0 <= r_ba r <= 65535 -> 0 <= r_spp r <= 65535 ->
+  rle_accepts r = true -> rle_representable r = true.
+Proof.
+  intros r Hw Hh Hba Hspp H. unfold rle_accepts in H.
+  destruct (rle_outcome r) eqn:E; try discriminate H. clear H.
+  unfold rle_outcome in E.
+  destruct (Z.eqb_spec (r_len r) 0); [discriminate|].
+  destruct (Z.eqb_spec (r_w r) 0); [discriminate|].
+  destruct (Z.eqb_spec (r_h r) 0); [discriminate|]. cbn [orb] in E.
+  destruct (Z.eqb_spec (r_ba r) 0); [discriminate|].
+  destruct (rle_bytes_allocated_eq (r_ba r) ltac:(lia)) as [Eb Bb].
+  set (b := rle_bytes_allocated (r_ba r)) in *.
+  destruct (Z.ltb_spec (b * r_spp r) 1); [discriminate|].
+  destruct (Z.ltb_spec 15 (b * r_spp r)); [discriminate|]. cbn [orb] in E.
+  destruct a.
+  assert (Hs1 : 1 <= r_spp r) by nia.
+  pose proof (rle_segments_ok_inv _ _ _ _ _ _ _ E ((r_spp r - 1) * b) ltac:(nia)) as Hi.
+  rewrite Z.quot_mul in Hi by lia. rewrite Z.rem_mul in Hi by lia.
+  assert (Hpc : 1 <= r_w r * r_h r) by nia.
+  destruct (Z.ltb_spec 0 (r_w r * r_h r)); [|lia]. cbn [andb] in Hi.
+  apply Z.leb_gt in Hi.
+  assert (Hneed : r_w r * r_h r * r_spp r * b <= r_len r).
+  { destruct (r_planar r =? 0); nia. }
+  unfold rle_representable. rewrite <- Eb.
+  repeat (apply andb_true_intro; split); apply Z.leb_le; try lia.
+Qed.
 
 (* ================= registry codecs ================= *)
 
@@ -357,82 +359,92 @@ Definition uint16_fields (c : cargs) : Prop :=
   0 <= c_w c <= 65535 /\ 0 <= c_h c <= 65535 /\ 0 <= c_spp c <= 65535 /\
   0 <= c_bs c <= 65535 /\ 0 <= c_ba c <= 65535.
 
-(* FrameInfo.Width/Height are uint16: the registry codecs cannot be handed the dimensions the
-   package-level encoders mishandle. *)
-Theorem codec_baseline_sound : forall c, uint16_fields c ->
+Theorem codec_baseline_sound : forall c,
   codec_baseline_accepts c = true ->
   baseline_representable (eargs_of c 8 (norm_param 1 100 90 90 false c)) = true.
 Proof.
-  intros c [Hw [Hh _]] H. unfold codec_baseline_accepts in H. split_and H.
-  apply baseline_accepts_partial; cbn [eargs_of a_w a_h]; try lia. exact H0.
+  intros c H. unfold codec_baseline_accepts in H. split_and H.
+  apply baseline_accepts_sound. exact H0.
 Qed.
 
-Theorem codec_extended_sound : forall c, uint16_fields c ->
+Theorem codec_extended_sound : forall c,
   codec_extended_accepts c = true ->
   extended_representable (eargs_of c (if (0 <? c_bs c) && (c_bs c <=? 8) then 8 else 12)
                                      (norm_param 1 100 90 90 false c)) = true.
 Proof.
-  intros c [Hw [Hh _]] H. unfold codec_extended_accepts in H. split_and H.
-  apply extended_accepts_partial; cbn [eargs_of a_w a_h]; try lia. exact H0.
+  intros c H. unfold codec_extended_accepts in H. split_and H.
+  apply extended_accepts_sound. exact H0.
 Qed.
 
-Theorem codec_lossless57_sound : forall c, uint16_fields c ->
+(* the consistency guard of 6841553: accepted FrameInfo has 1 <= BitsStored <= BitsAllocated *)
+Theorem codec_bits_consistent : forall c,
+  (codec_baseline_accepts c = true \/ codec_extended_accepts c = true \/ codec_htj2k_accepts c = true) ->
+  c_bs c <> 0 /\ c_bs c <= c_ba c.
+Proof.
+  intros c [H | [H | H]];
+    [unfold codec_baseline_accepts in H | unfold codec_extended_accepts in H | unfold codec_htj2k_accepts in H];
+    split_and H;
+    repeat match goal with
+    | Hx : negb ((c_bs c =? 0) || (c_ba c <? c_bs c)) = true |- _ =>
+      destruct (Z.eqb_spec (c_bs c) 0); destruct (Z.ltb_spec (c_ba c) (c_bs c)); cbn in Hx;
+        try discriminate Hx; split; lia
+    end.
+Qed.
+
+Theorem codec_lossless57_sound : forall c,
   codec_lossless57_accepts c = true -> lossless_representable (eargs_of c (c_bs c) 1) = true.
 Proof.
-  intros c [Hw [Hh _]] H. unfold codec_lossless57_accepts in H. split_and H.
-  apply lossless_accepts_partial; cbn [eargs_of a_w a_h]; try lia. exact H0.
+  intros c H. unfold codec_lossless57_accepts in H. split_and H.
+  apply lossless_accepts_sound. exact H0.
 Qed.
 
-Theorem codec_sv1_sound : forall c, uint16_fields c ->
+Theorem codec_sv1_sound : forall c,
   codec_sv1_accepts c = true -> sv1_representable (eargs_of c (c_bs c) 0) = true.
 Proof.
-  intros c [Hw [Hh _]] H. unfold codec_sv1_accepts in H. split_and H.
-  apply sv1_accepts_partial; cbn [eargs_of a_w a_h]; try lia. exact H0.
+  intros c H. unfold codec_sv1_accepts in H. split_and H.
+  apply sv1_accepts_sound. exact H0.
 Qed.
 
-(* JPEG-LS at the registry: dimensions are fine, the frame length still is not checked *)
-Theorem codec_jls_refuted :
-  exists c, uint16_fields c /\ codec_jls_accepts c = true /\
-            jls_representable (eargs_of c (c_bs c) 0) = false.
+Theorem codec_jls_sound : forall c,
+  codec_jls_accepts c = true -> jls_representable (eargs_of c (c_bs c) 0) = true.
+Proof.
+  intros c H. unfold codec_jls_accepts in H. split_and H.
+  apply jls_accepts_sound. exact H0.
+Qed.
+
+(* KNOWN FINDING FR-3 at the registry: the codec default NEAR = 3 with BitsStored = 2
+   (MAXVAL 3, NEAR <= 1); geometry and frame length are fine. *)
+Theorem codec_jlsnear_refuted :
+  exists c, uint16_fields c /\ codec_jlsnear_accepts c = true /\
+            jlsnear_representable (eargs_of c (c_bs c) (norm_param 0 255 3 3 false c)) = false /\
+            jls_representable (eargs_of c (c_bs c) 0) = true /\ c_bs c = 2.
 Proof.
   exists {| c_nil_old := false; c_nil_new := false; c_nil_fi := false; c_w := 5; c_h := 3; c_spp := 1;
-            c_bs := 8; c_ba := 8; c_planar := 0; c_nframes := 1; c_flen := 7; c_pkind := 0; c_param := 0;
+            c_bs := 2; c_ba := 8; c_planar := 0; c_nframes := 1; c_flen := 15; c_pkind := 0; c_param := 0;
             c_param_int := false |}.
   unfold uint16_fields. vm_compute. repeat split; discriminate.
 Qed.
 
-Theorem codec_jlsnear_refuted :
-  (* short frame *)
-  (exists c, uint16_fields c /\ codec_jlsnear_accepts c = true /\
-             jlsnear_representable (eargs_of c (c_bs c) (norm_param 0 255 3 3 false c)) = false /\ c_bs c = 12) /\
-  (* default NEAR = 3 with BitsStored = 2 (MAXVAL 3, NEAR <= 1) *)
-  (exists c, uint16_fields c /\ codec_jlsnear_accepts c = true /\
-             jlsnear_representable (eargs_of c (c_bs c) (norm_param 0 255 3 3 false c)) = false /\ c_bs c = 2).
+Theorem codec_jlsnear_partial : forall c,
+  norm_param 0 255 3 3 false c <= near_max (c_bs c) ->
+  codec_jlsnear_accepts c = true ->
+  jlsnear_representable (eargs_of c (c_bs c) (norm_param 0 255 3 3 false c)) = true.
 Proof.
-  split.
-  - exists {| c_nil_old := false; c_nil_new := false; c_nil_fi := false; c_w := 5; c_h := 3; c_spp := 1;
-              c_bs := 12; c_ba := 16; c_planar := 0; c_nframes := 1; c_flen := 29; c_pkind := 0; c_param := 0;
-              c_param_int := false |}.
-    unfold uint16_fields. vm_compute. repeat split; discriminate.
-  - exists {| c_nil_old := false; c_nil_new := false; c_nil_fi := false; c_w := 5; c_h := 3; c_spp := 1;
-              c_bs := 2; c_ba := 8; c_planar := 0; c_nframes := 1; c_flen := 15; c_pkind := 0; c_param := 0;
-              c_param_int := false |}.
-    unfold uint16_fields. vm_compute. repeat split; discriminate.
+  intros c Hn H. unfold codec_jlsnear_accepts in H. split_and H.
+  apply jlsnear_accepts_partial; [exact Hn | exact H0].
 Qed.
 
 Definition j2k_of_codec (c : cargs) (p prog : Z) : j2kargs :=
   {| k_len := c_flen c; k_w := c_w c; k_h := c_h c; k_c := c_spp c; k_p := p;
      k_levels := 5; k_cbw := 64; k_cbh := 64; k_layers := 1; k_prog := prog;
-     k_tw := 0; k_th := 0; k_quality := 80; k_lossless := true |}.
+     k_tw := 0; k_th := 0; k_quality := 80; k_lossless := true; k_ncq := 0 |}.
 
-Lemma j2k_of_codec_sound : forall c p prog, uint16_fields c -> 0 <= prog <= 4 ->
+Lemma j2k_of_codec_sound : forall c p prog, uint16_fields c -> 0 <= prog ->
   j2k_accepts (j2k_of_codec c p prog) = true -> j2k_representable (j2k_of_codec c p prog) = true.
 Proof.
   intros c p prog [Hw [Hh _]] Hp H.
-  apply j2k_accepts_partial; cbn [j2k_of_codec k_w k_h k_cbw k_cbh k_layers k_prog k_tw k_th k_lossless];
-    try lia; try exact H.
-  - change (2 ^ 59) with 576460752303423488. nia.
-  - unfold tiles_along. cbn. lia.
+  apply j2k_accepts_sound; cbn [j2k_of_codec k_w k_h k_tw k_th k_ncq k_prog]; try lia; try exact H.
+  change (2 ^ 59) with 576460752303423488. nia.
 Qed.
 
 Theorem codec_j2k_sound : forall c, uint16_fields c ->
@@ -449,18 +461,31 @@ Proof.
   apply j2k_of_codec_sound; [exact Hu | lia | exact H0].
 Qed.
 
-(* RLE at the registry: zero rows accepted; > 15 segments panic *)
-Theorem codec_rle_refuted :
-  codec_rle_outcome {| c_nil_old := false; c_nil_new := false; c_nil_fi := false; c_w := 1; c_h := 0;
-                       c_spp := 1; c_bs := 16; c_ba := 16; c_planar := 1; c_nframes := 1; c_flen := 1;
-                       c_pkind := 0; c_param := 0; c_param_int := false |} = Ok tt /\
-  codec_rle_outcome {| c_nil_old := false; c_nil_new := false; c_nil_fi := false; c_w := 5; c_h := 3;
-                       c_spp := 3; c_bs := 1; c_ba := 64; c_planar := 0; c_nframes := 1; c_flen := 360;
-                       c_pkind := 0; c_param := 0; c_param_int := false |} = Panic.
-Proof. split; vm_compute; reflexivity. Qed.
+(* RLE at the registry: never panics; with at least one frame, acceptance implies an Annex G
+   representable geometry and a complete frame *)
+Theorem codec_rle_sound : forall c, uint16_fields c ->
+  codec_rle_outcome c <> Panic /\
+  (codec_rle_outcome c = Ok tt -> 0 < c_nframes c ->
+   rle_representable {| r_len := c_flen c; r_w := c_w c; r_h := c_h c; r_ba := c_ba c;
+                        r_spp := c_spp c; r_planar := c_planar c |} = true).
+Proof.
+  intros c [Hw [Hh [Hs [_ Hb]]]]. unfold codec_rle_outcome. split.
+  - destruct (c_nil_old c || c_nil_new c); [discriminate|].
+    destruct (c_nframes c <=? 0); [discriminate|].
+    destruct (c_flen c =? 0); [discriminate|].
+    destruct (c_nil_fi c); [discriminate|]. apply rle_never_panics.
+  - intros H Hn.
+    destruct (c_nil_old c || c_nil_new c); [discriminate|].
+    destruct (Z.leb_spec (c_nframes c) 0); [lia|].
+    destruct (c_flen c =? 0); [discriminate|].
+    destruct (c_nil_fi c); [discriminate|].
+    apply rle_accepts_sound; cbn [r_w r_h r_ba r_spp]; try assumption.
+    unfold rle_accepts. rewrite H. reflexivity.
+Qed.
 
-(* Validate() never fails: whatever integer the parameter object carries, the value used
-   is inside the documented range (this is the "normalises instead of rejecting" behaviour) *)
+(* KNOWN FINDING FR-7. Validate() never rejects: whatever integer the parameter object
+   carries, the value used afterwards is inside the documented range (out-of-range values are
+   replaced by the default without an error). *)
 Theorem norm_param_in_range : forall lo hi d cd any c,
   lo <= d <= hi -> in_range lo hi (norm_param lo hi d cd any c) = true.
 Proof.
@@ -469,3 +494,10 @@ Proof.
   - exact E.
   - unfold in_range. apply andb_true_intro; split; apply Z.leb_le; lia.
 Qed.
+
+Theorem validate_normalises_witness :
+  let c := {| c_nil_old := false; c_nil_new := false; c_nil_fi := false; c_w := 5; c_h := 3; c_spp := 1;
+              c_bs := 8; c_ba := 8; c_planar := 0; c_nframes := 1; c_flen := 15; c_pkind := 1;
+              c_param := 101; c_param_int := false |} in
+  codec_baseline_accepts c = true /\ c_param c = 101 /\ norm_param 1 100 90 90 false c = 90.
+Proof. vm_compute. repeat split; reflexivity. Qed.
